@@ -3,6 +3,8 @@ import FlVerif.Lemmas.ShuntingYard
 import FlVerif.Lemmas.ParsePostfix
 import FlVerif.Lemmas.Reject
 import FlVerif.Op.FunctionTerm
+import FlVerif.Lemmas.CodeFunction
+import FlVerif.Lemmas.CodeFunctionParse
 
 /-! # C17 — Function formulas follow the documented precedence and associativity
 
@@ -44,6 +46,35 @@ theorem precedence_table :
     (∀ f ∈ t.functions, t.prec "!" ≤ t.prec f) ∧
     t.arity "pi" = 0 := by
   decide +kernel
+
+/-! ## Tie A (code → model) -/
+
+/-- "(", ")" and "," are not element names of the regenerated table (the hypothesis of the code ties) -/
+theorem table_noPunct : Table.NoPunct Gen.Tables.elements := by decide +kernel
+
+/-- **Tie A (code → model).**  `Gen.Code.infix_to_postfix` is regenerated from the source of
+    `Function.infix_to_postfix` on every run (`fv/pylean.py`; the element table is the parameter `tbl`, `format_infix`
+    is the model `Op.formatInfix`).  For every table in which "(", ")" and "," are not element names and every
+    formula it raises the exception class the model `Op.toPostfix` predicts and otherwise returns the model's postfix
+    tokens joined by single spaces. -/
+theorem code_toPostfix (tbl : Table) (hT : tbl.NoPunct) (formula : String) :
+    match toPostfix tbl (formatInfix tbl formula) with
+    | .error e => Gen.Code.infix_to_postfix.run tbl formula {} = .error e.toPy
+    | .ok r => ∃ σ, Gen.Code.infix_to_postfix.run tbl formula {} = .ok σ ∧ σ.ret = some (Py.joinSp r) :=
+  CodeFn.code_toPostfix hT formula
+
+/-- **Tie A (code → model).**  `Gen.Code.Function_parse` is regenerated from the source of `Function.parse` on every
+    run; its call `cls.infix_to_postfix(formula)` followed by `.split()` is the token list of the function tied
+    above (`Py.infixToPostfix`), `factory.objects.get` / `factory.copy` are look-ups in the table `tbl`, and
+    `Function.Node` is the record `Py.Node`.  For every table and every formula it raises the exception class the
+    model `Op.parseFormula` (`Op.toPostfix` then the stack machine `Op.parsePostfix`) predicts and otherwise returns
+    the `Function.Node` tree of the model's expression tree (`Lang.Expr.toNode`: the operand of a unary element on
+    the right, a leaf is a constant node when `float(token)` succeeds and a variable node otherwise). -/
+theorem code_parsePostfix (tbl : Table) (formula : String) :
+    match parseFormula tbl (formatInfix tbl formula) with
+    | .error e => Gen.Code.Function_parse.run tbl formula {} = .error e.toPy
+    | .ok r => ∃ σ, Gen.Code.Function_parse.run tbl formula {} = .ok σ ∧ σ.ret = some r.toNode :=
+  CodeFn.code_parsePostfix tbl formula
 
 /-! ## infix → postfix: the shunting-yard loop is correct for every writing of every tree -/
 
